@@ -219,7 +219,8 @@ def run(res, tier):
             continue
         n += 1
         rets = [r for r in walk(tbf.body(fn)) if r.get("k") == "ReturnStmt" and kids(r)]
-        computed = [r for r in rets if not any(a.get("k") == "IfStmt" and "getenv" in facts.ntext(a["c"][0]) for a in _anc(fn, r))]
+        # returns under a condition that depends on the environment (directly, or through a helper that reads it) are the user's override
+        computed = [r for r in rets if not any(a.get("k") == "IfStmt" and any(reads_env(facts, c0) for c0 in (a["c"][:-2] + a.get("pre", [])) if c0 is not None) for a in _anc(fn, r))]
         for r in computed:
             e = strip(kids(r)[0])
             # a helper of the library with a single return statement is inlined
@@ -239,6 +240,21 @@ def run(res, tier):
                 res.violation(R, tbf.rel(facts.path_of(r)), fn["qname"], "return@%d" % r["l"][1], r["l"][1],
                               "the automatic block size '%s' is not clamped to >= 1: with few leaves it becomes 0 and the tree is built empty" % facts.ntext(e)[:80])
     res.floor(R, n, 2, "estimators")
+
+
+def reads_env(facts, n, depth=0):
+    """the expression (or declaration) calls getenv, directly or through library functions"""
+    for x in walk(n):
+        if x.get("k") in ("CallExpr", "CXXMemberCallExpr"):
+            nm = tbf.callee_name(x)
+            if nm == "getenv":
+                return True
+            if depth < 3 and nm:
+                for g in facts.functions:
+                    if g["name"] == nm and not g.get("inst") and tbf.body(g) is not None and g.get("cls") is None:
+                        if reads_env(facts, tbf.body(g), depth + 1):
+                            return True
+    return False
 
 
 def _anc(fn, n):
